@@ -1,10 +1,844 @@
-//! C14 — stub: property not yet claimed.
+//! C14 — a channel always answers and recovers when the peer comes back.
+//!
+//! Three case kinds, all driving the real tonic code:
+//!
+//! * `unit <L|E> <env> <ops>` — the crate-private `Reconnect` state machine (through the
+//!   `verif-hooks` wrapper) with a scripted `MakeService` / connect future / inner service.
+//!   `env` is the flat list of answers the environment gives to successive queries
+//!   (`o` = Ready(Ok), `e` = Ready(Err), `p` = Pending; exhausted = Pending forever); `ops` is an
+//!   arbitrary sequence of `r` (one `poll_ready`) and `c` (one `call`, response future polled
+//!   once).  After every op the private state is read back.
+//! * `sess <L|E> <env> <n>` — the same scripted environment, but driven the way `Channel` drives
+//!   it: `ready_oneshot` for an eager channel, then a real `tower::buffer::Buffer` worker, then
+//!   `n` sequential calls.
+//! * `e2e <L|E> <outcomes> <ops>` — `Endpoint::connect_with_connector[_lazy]` with a scripted
+//!   connector (`F`/`S` = attempt fails / succeeds, lower case = after a delay) that hands out
+//!   `tokio::io::duplex` streams whose far end is a real `tonic::transport::Server` connection,
+//!   reached through a cable task the script can cut (`d`); `c` = one unary call through
+//!   `tonic::client::Grpc`.  Virtual time; every op is followed by a quiescence sleep.
 use crate::common::*;
+use std::collections::VecDeque;
+use std::future::Future;
+use std::pin::Pin;
+use std::sync::{Arc, Mutex};
+use std::task::{Context, Poll, Wake, Waker};
+use std::time::Duration;
+use tonic::transport::verif_hooks::ReconnectHook;
+use tower::{Service, ServiceExt};
 
-pub fn generate(_tier: &str, _rng: &mut Rng) -> Vec<String> {
-    Vec::new()
+// ------------------------------------------------------------------------------------------
+// generator
+// ------------------------------------------------------------------------------------------
+
+fn all_strings(alpha: &[char], len: usize) -> Vec<String> {
+    let mut out = vec![String::new()];
+    for _ in 0..len {
+        let mut next = Vec::with_capacity(out.len() * alpha.len());
+        for s in &out {
+            for a in alpha {
+                let mut t = s.clone();
+                t.push(*a);
+                next.push(t);
+            }
+        }
+        out = next;
+    }
+    out
 }
 
-pub fn execute(_case: &str) -> String {
-    "unclaimed".into()
+fn all_strings_upto(alpha: &[char], max: usize) -> Vec<String> {
+    (0..=max).flat_map(|n| all_strings(alpha, n)).collect()
+}
+
+fn tok(s: &str) -> String {
+    if s.is_empty() {
+        "-".into()
+    } else {
+        s.into()
+    }
+}
+
+fn rand_string(rng: &mut Rng, alpha: &[(char, u64)], len: usize) -> String {
+    let total: u64 = alpha.iter().map(|a| a.1).sum();
+    (0..len)
+        .map(|_| {
+            let mut x = rng.below(total);
+            for (c, w) in alpha {
+                if x < *w {
+                    return *c;
+                }
+                x -= *w;
+            }
+            alpha[0].0
+        })
+        .collect()
+}
+
+pub fn generate(tier: &str, rng: &mut Rng) -> Vec<String> {
+    let thorough = tier == "thorough";
+    let mut out: Vec<String> = Vec::new();
+    let modes = ["L", "E"];
+
+    // ---- corpus: the paths the property text names, and the corners found while modelling ----
+    for c in [
+        // error stored while lazy, consumed by exactly one call, then recovery
+        "unit L oe rcrrc",
+        "unit L oeooo rcrc",
+        // eager initial failure leaves the finished connect future in `Connecting`
+        "unit E oe r",
+        "unit E oe rr",
+        "unit E oeo rrc",
+        // reconnect after inner poll_ready error; error of the reconnect goes to one call only
+        "unit E oooeoe rcrcrc",
+        "unit E oooeooo rcrc",
+        "unit L ooeoeoeooo rcrcrc",
+        // call without readiness: the panic branch
+        "unit L - c",
+        "unit L o rc",
+        "unit L oop rrc",
+        // MakeService::poll_ready fails
+        "unit L e r",
+        "unit E ooeee rr",
+        // pending everywhere
+        "unit L popopo rrrc",
+        "unit E pppp rrrr",
+        "sess L oeooo 3",
+        "sess E oe 2",
+        "sess E oooeoeooo 4",
+        "sess L e 2",
+        "sess E ooeee 3",
+        "sess L oopp 2",
+        "e2e L FS cc",
+        "e2e E F c",
+        "e2e E SFS cdcc",
+        "e2e L SSS cdcdc",
+        "e2e L FFFS cccc",
+        "e2e E SFFS cdccc",
+        "e2e L sfS cdcc",
+        "e2e E Sfs dcc",
+        "e2e L S ddcdd",
+        // witnesses of the connect-error classification defect (handshake failure / connect
+        // timeout used to surface as UNKNOWN): kept so that a regression is reported
+        "e2e L XS cc",
+        "e2e E X c",
+        "e2e L TS cc",
+        "e2e E T c",
+        "e2e E STS dcc",
+        "e2e L SXS cdcc",
+        "e2e E SXTFS dcccc",
+        "e2e E SS cgc",
+        "e2e L SFS cgccgc",
+        "e2n L XS cc",
+        "e2n E X c",
+        "e2n E SFXS dccc",
+    ] {
+        out.push(c.to_string());
+    }
+
+    // ---- unit: exhaustive small scope ----
+    // every env over {o,e,p} up to a bound × the disciplined op pattern (poll until not pending,
+    // call after each Ready) is covered by `sess`; here ops are arbitrary.
+    let (env_max, ops_max) = if thorough { (6, 6) } else { (5, 5) };
+    let envs = all_strings_upto(&['o', 'e', 'p'], env_max);
+    let opss = all_strings_upto(&['r', 'c'], ops_max);
+    for m in modes {
+        for env in &envs {
+            for ops in &opss {
+                if ops.is_empty() {
+                    continue;
+                }
+                // keep the product affordable: long envs only with op strings that can consume them
+                if env.len() + 1 < ops.matches('r').count() && env.len() + 2 < ops.len() {
+                    continue;
+                }
+                out.push(format!("unit {} {} {}", m, tok(env), ops));
+            }
+        }
+    }
+    // ---- unit: random long scripts (biased to `o`, with bursts of errors) ----
+    let n = if thorough { 30000 } else { 4000 };
+    for _ in 0..n {
+        let m = *rng.pick(&modes);
+        let len = rng.range(0, 24) as usize;
+        let env = match rng.below(3) {
+            0 => rand_string(rng, &[('o', 6), ('e', 3), ('p', 2)], len),
+            1 => rand_string(rng, &[('o', 3), ('e', 3), ('p', 1)], len),
+            _ => rand_string(rng, &[('o', 8), ('e', 1), ('p', 4)], len),
+        };
+        let olen = rng.range(1, 16) as usize;
+        let ops = match rng.below(3) {
+            // mostly disciplined: r…rc
+            0 => {
+                let mut s = String::new();
+                while s.len() < olen {
+                    for _ in 0..rng.range(1, 3) {
+                        s.push('r');
+                    }
+                    s.push('c');
+                }
+                s
+            }
+            1 => rand_string(rng, &[('r', 3), ('c', 1)], olen),
+            _ => rand_string(rng, &[('r', 1), ('c', 1)], olen),
+        };
+        out.push(format!("unit {} {} {}", m, tok(&env), ops));
+    }
+
+    // ---- sess: exhaustive small scope + random ----
+    let env_max = if thorough { 9 } else { 7 };
+    for m in modes {
+        for env in all_strings_upto(&['o', 'e', 'p'], env_max) {
+            // enough calls to consume the whole script
+            let calls = (env.len() / 2 + 1).min(5);
+            out.push(format!("sess {} {} {}", m, tok(&env), calls));
+        }
+    }
+    let n = if thorough { 20000 } else { 2000 };
+    for _ in 0..n {
+        let m = *rng.pick(&modes);
+        let len = rng.range(4, 40) as usize;
+        let env = match rng.below(3) {
+            0 => rand_string(rng, &[('o', 6), ('e', 3), ('p', 2)], len),
+            1 => rand_string(rng, &[('o', 3), ('e', 2), ('p', 0)], len),
+            _ => rand_string(rng, &[('o', 10), ('e', 1), ('p', 6)], len),
+        };
+        out.push(format!("sess {} {} {}", m, tok(&env), rng.range(1, 12)));
+    }
+
+    // ---- e2e: every fault script up to the bound ----
+    // ops over {c,d} up to length n; connector outcomes over {F,S}, one per possible attempt
+    // (at most #calls + 1 attempts can happen), so no script ever runs past its outcome list.
+    let ops_max = if thorough { 9 } else { 7 };
+    for m in modes {
+        for ops in all_strings_upto(&['c', 'd'], ops_max) {
+            let calls = ops.matches('c').count();
+            let attempts = calls + if m == "E" { 1 } else { 0 };
+            for outs in all_strings(&['F', 'S'], attempts) {
+                out.push(format!("e2e {} {} {}", m, tok(&outs), tok(&ops)));
+            }
+        }
+    }
+    // the same with all four ways an attempt can end (refused, served, peer gone before the
+    // HTTP/2 handshake, connect timeout), smaller bound
+    let ops_max = if thorough { 6 } else { 4 };
+    for m in modes {
+        for ops in all_strings_upto(&['c', 'd'], ops_max) {
+            let calls = ops.matches('c').count();
+            let attempts = calls + if m == "E" { 1 } else { 0 };
+            for outs in all_strings(&['F', 'S', 'X', 'T'], attempts) {
+                if outs.contains('X') || outs.contains('T') {
+                    out.push(format!("e2e {} {} {}", m, tok(&outs), tok(&ops)));
+                }
+                // the same script with every attempt answering only after a delay
+                if ops.len() + 1 < ops_max && !outs.is_empty() {
+                    out.push(format!("e2e {} {} {}", m, outs.to_ascii_lowercase(), tok(&ops)));
+                }
+            }
+        }
+    }
+    // peer drops the connection abruptly (`d`) or by a graceful shutdown (`g`)
+    let ops_max = if thorough { 7 } else { 5 };
+    for m in modes {
+        for ops in all_strings_upto(&['c', 'd', 'g'], ops_max) {
+            if !ops.contains('g') {
+                continue;
+            }
+            let calls = ops.matches('c').count();
+            let attempts = calls + if m == "E" { 1 } else { 0 };
+            // all-succeed, all-fail-after-first and alternating outcome lists
+            let all_s: String = "S".repeat(attempts);
+            let alt: String = (0..attempts).map(|i| if i % 2 == 0 { 'S' } else { 'F' }).collect();
+            let first: String = (0..attempts).map(|i| if i == 0 { 'S' } else { 'F' }).collect();
+            for outs in [all_s, alt, first] {
+                out.push(format!("e2e {} {} {}", m, tok(&outs), tok(&ops)));
+            }
+        }
+    }
+    // the code path without a connect timeout (no TimeoutConnector around the connector);
+    // `T` (an attempt that never ends) is excluded: nothing would ever end it
+    let ops_max = if thorough { 7 } else { 5 };
+    for m in modes {
+        for ops in all_strings_upto(&['c', 'd'], ops_max) {
+            let calls = ops.matches('c').count();
+            let attempts = calls + if m == "E" { 1 } else { 0 };
+            let alpha: &[char] = if ops.len() <= ops_max - 1 { &['F', 'S', 'X'] } else { &['F', 'S'] };
+            for outs in all_strings(alpha, attempts) {
+                out.push(format!("e2n {} {} {}", m, tok(&outs), tok(&ops)));
+            }
+        }
+    }
+    // delayed outcomes (Pending paths through the real Buffer / hyper handshake), random long;
+    // outcome lists may be shorter than the number of attempts (then: refused)
+    let n = if thorough { 4000 } else { 300 };
+    for _ in 0..n {
+        let m = *rng.pick(&modes);
+        let olen = rng.range(1, if thorough { 16 } else { 10 }) as usize;
+        let ops = match rng.below(3) {
+            0 => rand_string(rng, &[('c', 3), ('d', 1), ('g', 1)], olen),
+            1 => rand_string(rng, &[('c', 2), ('d', 1), ('g', 1)], olen),
+            _ => rand_string(rng, &[('c', 5), ('d', 1)], olen),
+        };
+        let alen = rng.range(0, olen as u64 + 1) as usize;
+        let outs = match rng.below(3) {
+            0 => rand_string(rng, &[('F', 3), ('S', 3), ('f', 2), ('s', 2)], alen),
+            1 => rand_string(rng, &[('F', 2), ('S', 4), ('X', 1), ('T', 1), ('f', 1), ('s', 2), ('x', 1), ('t', 1)], alen),
+            _ => rand_string(rng, &[('F', 4), ('S', 1), ('X', 2), ('T', 2), ('s', 1)], alen),
+        };
+        if outs.contains('T') || outs.contains('t') || rng.chance(1, 2) {
+            out.push(format!("e2e {} {} {}", m, tok(&outs), tok(&ops)));
+        } else {
+            out.push(format!("e2n {} {} {}", m, tok(&outs), tok(&ops)));
+        }
+    }
+    out
+}
+
+// ------------------------------------------------------------------------------------------
+// scripted environment for `unit` / `sess`
+// ------------------------------------------------------------------------------------------
+
+#[derive(Debug)]
+struct ScriptErr(usize);
+impl std::fmt::Display for ScriptErr {
+    fn fmt(&self, f: &mut std::fmt::Formatter<'_>) -> std::fmt::Result {
+        write!(f, "scripted error {}", self.0)
+    }
+}
+impl std::error::Error for ScriptErr {}
+
+struct Env {
+    answers: VecDeque<(usize, char)>,
+    made: usize,
+    /// wake the task on a scripted `p` (so that `ready().await` re-polls); never on exhaustion
+    wake: bool,
+}
+
+enum A {
+    Ok,
+    Err(usize),
+    Pending,
+}
+
+type Shared = Arc<Mutex<Env>>;
+
+fn answer(env: &Shared, cx: &mut Context<'_>) -> A {
+    let mut g = env.lock().unwrap();
+    match g.answers.pop_front() {
+        Some((_, 'o')) => A::Ok,
+        Some((i, 'e')) => A::Err(i),
+        Some((_, _)) => {
+            if g.wake {
+                cx.waker().wake_by_ref();
+            }
+            A::Pending
+        }
+        None => A::Pending,
+    }
+}
+
+struct Mk(Shared);
+struct ConnFut {
+    env: Shared,
+    id: usize,
+    done: bool,
+}
+struct Inner {
+    env: Shared,
+    id: usize,
+}
+
+impl Service<()> for Mk {
+    type Response = Inner;
+    type Error = ScriptErr;
+    type Future = ConnFut;
+    fn poll_ready(&mut self, cx: &mut Context<'_>) -> Poll<Result<(), ScriptErr>> {
+        match answer(&self.0, cx) {
+            A::Ok => Poll::Ready(Ok(())),
+            A::Err(i) => Poll::Ready(Err(ScriptErr(i))),
+            A::Pending => Poll::Pending,
+        }
+    }
+    fn call(&mut self, _t: ()) -> ConnFut {
+        let mut g = self.0.lock().unwrap();
+        g.made += 1;
+        ConnFut { env: self.0.clone(), id: g.made, done: false }
+    }
+}
+
+impl Future for ConnFut {
+    type Output = Result<Inner, ScriptErr>;
+    fn poll(mut self: Pin<&mut Self>, cx: &mut Context<'_>) -> Poll<Self::Output> {
+        if self.done {
+            // what the real connect future (an `async` block) does
+            panic!("connect future polled after completion");
+        }
+        match answer(&self.env, cx) {
+            A::Ok => {
+                self.done = true;
+                Poll::Ready(Ok(Inner { env: self.env.clone(), id: self.id }))
+            }
+            A::Err(i) => {
+                self.done = true;
+                Poll::Ready(Err(ScriptErr(i)))
+            }
+            A::Pending => Poll::Pending,
+        }
+    }
+}
+
+impl Service<u32> for Inner {
+    type Response = usize;
+    type Error = ScriptErr;
+    type Future = std::future::Ready<Result<usize, ScriptErr>>;
+    fn poll_ready(&mut self, cx: &mut Context<'_>) -> Poll<Result<(), ScriptErr>> {
+        match answer(&self.env, cx) {
+            A::Ok => Poll::Ready(Ok(())),
+            A::Err(i) => Poll::Ready(Err(ScriptErr(i))),
+            A::Pending => Poll::Pending,
+        }
+    }
+    fn call(&mut self, _req: u32) -> Self::Future {
+        std::future::ready(Ok(self.id))
+    }
+}
+
+fn meta_tok(shared: &Shared) -> String {
+    let g = shared.lock().unwrap();
+    format!("made={} left={}", g.made, g.answers.len())
+}
+
+fn mk_env(env: &str, wake: bool) -> Shared {
+    let answers: VecDeque<(usize, char)> = env.chars().filter(|c| *c != '-').enumerate().collect();
+    Arc::new(Mutex::new(Env { answers, made: 0, wake }))
+}
+
+fn script_err_id(e: &(dyn std::error::Error + 'static)) -> Option<usize> {
+    let mut cur: Option<&(dyn std::error::Error + 'static)> = Some(e);
+    while let Some(x) = cur {
+        if let Some(s) = x.downcast_ref::<ScriptErr>() {
+            return Some(s.0);
+        }
+        cur = x.source();
+    }
+    None
+}
+
+struct NoopWake;
+impl Wake for NoopWake {
+    fn wake(self: Arc<Self>) {}
+}
+
+fn state_tok(s: (u8, bool, bool)) -> String {
+    format!("s{}e{}h{}", s.0, s.1 as u8, s.2 as u8)
+}
+
+fn run_unit(lazy: bool, env: &str, ops: &str) -> String {
+    let shared = mk_env(env, false);
+    let mut svc: ReconnectHook<Mk, ()> = ReconnectHook::new(Mk(shared.clone()), (), lazy);
+    let waker = Waker::from(Arc::new(NoopWake));
+    let mut cx = Context::from_waker(&waker);
+    let mut out: Vec<String> = Vec::new();
+    for op in ops.chars() {
+        let r = std::panic::catch_unwind(std::panic::AssertUnwindSafe(|| match op {
+            'r' => match Service::<u32>::poll_ready(&mut svc, &mut cx) {
+                Poll::Ready(Ok(())) => "r:ready".to_string(),
+                Poll::Pending => "r:pending".to_string(),
+                Poll::Ready(Err(e)) => match script_err_id(e.as_ref()) {
+                    Some(i) => format!("r:fail{}", i),
+                    None => "r:fail?".to_string(),
+                },
+            },
+            _ => {
+                let mut fut = Service::<u32>::call(&mut svc, 7);
+                match fut.as_mut().poll(&mut cx) {
+                    Poll::Ready(Ok(id)) => format!("c:sent{}", id),
+                    Poll::Ready(Err(e)) => match script_err_id(e.as_ref()) {
+                        Some(i) => format!("c:err{}", i),
+                        None => "c:err?".to_string(),
+                    },
+                    Poll::Pending => "c:pending".to_string(),
+                }
+            }
+        }));
+        match r {
+            Ok(t) => out.push(format!("{}:{}", t, state_tok(svc.state()))),
+            Err(_) => {
+                out.push(format!("{}:panic", op));
+                break;
+            }
+        }
+    }
+    out.push(meta_tok(&shared));
+    out.join(" ")
+}
+
+const WATCHDOG: Duration = Duration::from_secs(100_000);
+
+fn run_sess(lazy: bool, env: &str, n: usize) -> String {
+    let rt = paused_rt();
+    rt.block_on(async move {
+        let shared = mk_env(env, true);
+        let svc: ReconnectHook<Mk, ()> = ReconnectHook::new(Mk(shared.clone()), (), lazy);
+        let mut out: Vec<String> = Vec::new();
+        // Channel::connect = ready_oneshot, then Buffer; Channel::new = Buffer directly
+        let svc = if lazy {
+            svc
+        } else {
+            match tokio::time::timeout(WATCHDOG, ServiceExt::<u32>::ready_oneshot(svc)).await {
+                Err(_) => {
+                    out.push("build:hang".into());
+                    out.push(meta_tok(&shared));
+                    return out.join(" ");
+                }
+                Ok(Err(e)) => {
+                    out.push(match script_err_id(e.as_ref()) {
+                        Some(i) => format!("build:fail{}", i),
+                        None => "build:fail?".into(),
+                    });
+                    out.push(meta_tok(&shared));
+                    return out.join(" ");
+                }
+                Ok(Ok(s)) => {
+                    out.push(format!("build:ok:{}", state_tok(s.state())));
+                    s
+                }
+            }
+        };
+        let (mut buf, worker) = tower::buffer::Buffer::pair(svc, 8);
+        tokio::spawn(worker);
+        for _ in 0..n {
+            let fut = async {
+                let s = buf.ready().await?;
+                s.call(7u32).await
+            };
+            match tokio::time::timeout(WATCHDOG, fut).await {
+                Err(_) => {
+                    out.push("hang".into());
+                    break;
+                }
+                Ok(Ok(id)) => out.push(format!("resp{}", id)),
+                Ok(Err(e)) => {
+                    let closed = e.downcast_ref::<tower::buffer::error::ServiceError>().is_some();
+                    let id = script_err_id(e.as_ref()).map(|i| i.to_string()).unwrap_or("?".into());
+                    out.push(format!("{}{}", if closed { "closed" } else { "err" }, id));
+                }
+            }
+        }
+        out.push(meta_tok(&shared));
+        out.join(" ")
+    })
+}
+
+// ------------------------------------------------------------------------------------------
+// e2e: real Endpoint / Channel / hyper / tonic Server
+// ------------------------------------------------------------------------------------------
+
+mod raw {
+    use bytes::{Buf, BufMut};
+    use tonic::codec::{Codec, DecodeBuf, Decoder, EncodeBuf, Encoder};
+    use tonic::Status;
+
+    #[derive(Clone, Default)]
+    pub struct RawCodec;
+    pub struct RawEnc;
+    pub struct RawDec;
+    impl Codec for RawCodec {
+        type Encode = Vec<u8>;
+        type Decode = Vec<u8>;
+        type Encoder = RawEnc;
+        type Decoder = RawDec;
+        fn encoder(&mut self) -> RawEnc {
+            RawEnc
+        }
+        fn decoder(&mut self) -> RawDec {
+            RawDec
+        }
+    }
+    impl Encoder for RawEnc {
+        type Item = Vec<u8>;
+        type Error = Status;
+        fn encode(&mut self, item: Vec<u8>, dst: &mut EncodeBuf<'_>) -> Result<(), Status> {
+            dst.put_slice(&item);
+            Ok(())
+        }
+    }
+    impl Decoder for RawDec {
+        type Item = Vec<u8>;
+        type Error = Status;
+        fn decode(&mut self, src: &mut DecodeBuf<'_>) -> Result<Option<Vec<u8>>, Status> {
+            let n = src.remaining();
+            let mut v = vec![0u8; n];
+            src.copy_to_slice(&mut v);
+            Ok(Some(v))
+        }
+    }
+}
+
+#[derive(Clone)]
+struct WhoAmI {
+    id: usize,
+}
+
+impl tonic::server::NamedService for WhoAmI {
+    const NAME: &'static str = "verif.WhoAmI";
+}
+
+impl Service<http::Request<tonic::body::Body>> for WhoAmI {
+    type Response = http::Response<tonic::body::Body>;
+    type Error = std::convert::Infallible;
+    type Future = Pin<Box<dyn Future<Output = Result<Self::Response, Self::Error>> + Send>>;
+    fn poll_ready(&mut self, _cx: &mut Context<'_>) -> Poll<Result<(), Self::Error>> {
+        Poll::Ready(Ok(()))
+    }
+    fn call(&mut self, req: http::Request<tonic::body::Body>) -> Self::Future {
+        let id = self.id;
+        Box::pin(async move {
+            let mut grpc = tonic::server::Grpc::new(raw::RawCodec);
+            struct H<F>(F);
+            impl<F, Fut> tonic::server::UnaryService<Vec<u8>> for H<F>
+            where
+                F: FnMut(tonic::Request<Vec<u8>>) -> Fut,
+                Fut: Future<Output = Result<tonic::Response<Vec<u8>>, tonic::Status>>,
+            {
+                type Response = Vec<u8>;
+                type Future = Fut;
+                fn call(&mut self, request: tonic::Request<Vec<u8>>) -> Fut {
+                    (self.0)(request)
+                }
+            }
+            let res = grpc
+                .unary(
+                    H(move |r: tonic::Request<Vec<u8>>| async move {
+                        let mut v = r.into_inner();
+                        v.extend_from_slice(format!("@{}", id).as_bytes());
+                        Ok::<_, tonic::Status>(tonic::Response::new(v))
+                    }),
+                    req,
+                )
+                .await;
+            Ok(res)
+        })
+    }
+}
+
+struct World {
+    outcomes: VecDeque<char>,
+    attempts: usize,
+    /// cable tasks of connections handed out, by attempt id
+    cables: Vec<(usize, tokio::task::JoinHandle<()>)>,
+    /// graceful-shutdown triggers of the servers behind those connections
+    shutdowns: Vec<tokio::sync::oneshot::Sender<()>>,
+}
+
+#[derive(Clone)]
+struct ScriptConnector(Arc<Mutex<World>>);
+
+impl Service<http::Uri> for ScriptConnector {
+    type Response = hyper_util::rt::TokioIo<tokio::io::DuplexStream>;
+    type Error = std::io::Error;
+    type Future = Pin<Box<dyn Future<Output = Result<Self::Response, Self::Error>> + Send>>;
+    fn poll_ready(&mut self, _cx: &mut Context<'_>) -> Poll<Result<(), Self::Error>> {
+        Poll::Ready(Ok(()))
+    }
+    fn call(&mut self, _uri: http::Uri) -> Self::Future {
+        let world = self.0.clone();
+        let (id, outcome) = {
+            let mut w = world.lock().unwrap();
+            w.attempts += 1;
+            // past the end of the script every attempt fails
+            (w.attempts, w.outcomes.pop_front().unwrap_or('F'))
+        };
+        Box::pin(async move {
+            if outcome.is_ascii_lowercase() {
+                tokio::time::sleep(Duration::from_millis(5)).await;
+            }
+            match outcome.to_ascii_uppercase() {
+                'S' => {
+                    let (client_io, mut cable_a) = tokio::io::duplex(16 * 1024);
+                    let (mut cable_b, server_io) = tokio::io::duplex(16 * 1024);
+                    // the peer: a real tonic server serving exactly this connection
+                    let (stop_tx, stop_rx) = tokio::sync::oneshot::channel::<()>();
+                    tokio::spawn(async move {
+                        use tokio_stream::StreamExt;
+                        // one connection, then nothing more (the listener stays open)
+                        let incoming = tokio_stream::once(Ok::<_, std::io::Error>(server_io))
+                            .chain(tokio_stream::pending());
+                        let _ = tonic::transport::Server::builder()
+                            .add_service(WhoAmI { id })
+                            .serve_with_incoming_shutdown(incoming, async move {
+                                let _ = stop_rx.await;
+                            })
+                            .await;
+                    });
+                    world.lock().unwrap().shutdowns.push(stop_tx);
+                    let cable = tokio::spawn(async move {
+                        let _ = tokio::io::copy_bidirectional(&mut cable_a, &mut cable_b).await;
+                    });
+                    world.lock().unwrap().cables.push((id, cable));
+                    Ok(hyper_util::rt::TokioIo::new(client_io))
+                }
+                'T' => {
+                    // never answers: only `Endpoint::connect_timeout` ends this attempt
+                    std::future::pending::<()>().await;
+                    unreachable!()
+                }
+                'X' => {
+                    // the connect itself succeeds but the peer is already gone
+                    let (client_io, far) = tokio::io::duplex(16 * 1024);
+                    drop(far);
+                    Ok(hyper_util::rt::TokioIo::new(client_io))
+                }
+                _ => Err(std::io::Error::new(
+                    std::io::ErrorKind::ConnectionRefused,
+                    format!("refused attempt #{}#", id),
+                )),
+            }
+        })
+    }
+}
+
+/// The attempt id our connector put into its error text, searched in the whole rendering of the
+/// error (message and source chain).
+fn attempt_in(text: &str) -> String {
+    match text.find("refused attempt #") {
+        Some(p) => {
+            let rest = &text[p + "refused attempt #".len()..];
+            rest.chars().take_while(|c| c.is_ascii_digit()).collect()
+        }
+        None => "?".into(),
+    }
+}
+
+const QUIESCE: Duration = Duration::from_millis(50);
+
+fn run_e2e(lazy: bool, outcomes: &str, ops: &str, with_timeout: bool) -> String {
+    let rt = paused_rt();
+    rt.block_on(async move {
+        let world = Arc::new(Mutex::new(World {
+            outcomes: outcomes.chars().filter(|c| *c != '-').collect(),
+            attempts: 0,
+            cables: Vec::new(),
+            shutdowns: Vec::new(),
+        }));
+        let connector = ScriptConnector(world.clone());
+        let endpoint = tonic::transport::Endpoint::from_static("http://verif.invalid:50051");
+        // with a connect timeout the connector is wrapped in hyper_timeout's TimeoutConnector
+        // (one code path of connect_with_connector[_lazy]); without, it is used directly
+        let endpoint = if with_timeout {
+            endpoint.connect_timeout(Duration::from_secs(3))
+        } else {
+            endpoint
+        };
+        let mut out: Vec<String> = Vec::new();
+        let attempts = |w: &Arc<Mutex<World>>| w.lock().unwrap().attempts;
+        let channel = if lazy {
+            let ch = endpoint.connect_with_connector_lazy(connector);
+            tokio::time::sleep(QUIESCE).await;
+            out.push(format!("build:ok:a{}", attempts(&world)));
+            ch
+        } else {
+            match tokio::time::timeout(WATCHDOG, endpoint.connect_with_connector(connector)).await {
+                Err(_) => {
+                    out.push(format!("build:hang:a{}", attempts(&world)));
+                    return out.join(" ");
+                }
+                Ok(Err(e)) => {
+                    // how a caller would classify it
+                    let dbg = format!("{:?}", e);
+                    let st = tonic::Status::from_error(Box::new(e));
+                    out.push(format!("build:err{}:f{}:a{}", st.code() as i32, attempt_in(&dbg), attempts(&world)));
+                    return out.join(" ");
+                }
+                Ok(Ok(ch)) => {
+                    tokio::time::sleep(QUIESCE).await;
+                    out.push(format!("build:ok:a{}", attempts(&world)));
+                    ch
+                }
+            }
+        };
+        let mut client = tonic::client::Grpc::new(channel);
+        for op in ops.chars().filter(|c| *c != '-') {
+            match op {
+                'g' => {
+                    // the peer shuts down gracefully (GOAWAY, then closes): same fault, polite form
+                    let stops: Vec<_> = world.lock().unwrap().shutdowns.drain(..).collect();
+                    for s in stops {
+                        let _ = s.send(());
+                    }
+                    tokio::time::sleep(QUIESCE).await;
+                    out.push("d".into());
+                }
+                'd' => {
+                    // the peer drops every established connection
+                    let cables: Vec<_> = world.lock().unwrap().cables.drain(..).collect();
+                    for (_, c) in cables {
+                        c.abort();
+                        let _ = c.await;
+                    }
+                    tokio::time::sleep(QUIESCE).await;
+                    out.push("d".into());
+                }
+                _ => {
+                    let fut = async {
+                        client.ready().await.map_err(|e| {
+                            let dbg = format!("{:?}", e);
+                            (tonic::Status::from_error(Box::new(e)), dbg)
+                        })?;
+                        let path = http::uri::PathAndQuery::from_static("/verif.WhoAmI/Who");
+                        client
+                            .unary::<Vec<u8>, Vec<u8>, _>(tonic::Request::new(b"hi".to_vec()), path, raw::RawCodec)
+                            .await
+                            .map_err(|st| {
+                                let dbg = format!("{:?} {}", st, source_chain(&st));
+                                (st, dbg)
+                            })
+                    };
+                    let r = tokio::time::timeout(WATCHDOG, fut).await;
+                    tokio::time::sleep(QUIESCE).await;
+                    let a = attempts(&world);
+                    match r {
+                        Err(_) => {
+                            out.push(format!("c:hang:a{}", a));
+                            break;
+                        }
+                        Ok(Ok(resp)) => {
+                            let body = String::from_utf8_lossy(resp.get_ref()).to_string();
+                            match body.strip_prefix("hi@") {
+                                Some(id) => out.push(format!("c:resp{}:a{}", id, a)),
+                                None => out.push(format!("c:garbled:a{}", a)),
+                            }
+                        }
+                        Ok(Err((st, dbg))) => {
+                            if std::env::var("C14_DEBUG").is_ok() { eprintln!("{}", dbg); } out.push(format!("c:err{}:f{}:a{}", st.code() as i32, attempt_in(&dbg), a));
+                        }
+                    }
+                }
+            }
+        }
+        out.join(" ")
+    })
+}
+
+fn source_chain(e: &dyn std::error::Error) -> String {
+    let mut s = String::new();
+    let mut cur = e.source();
+    while let Some(x) = cur {
+        s.push_str(&format!(" <- {}", x));
+        cur = x.source();
+    }
+    s
+}
+
+pub fn execute(case: &str) -> String {
+    let t: Vec<&str> = case.split(' ').collect();
+    match t.as_slice() {
+        ["unit", m, env, ops] if *m == "L" || *m == "E" => run_unit(*m == "L", env, ops),
+        ["sess", m, env, n] if *m == "L" || *m == "E" => match n.parse::<usize>() {
+            Ok(n) => run_sess(*m == "L", env, n),
+            Err(_) => "bad-case".into(),
+        },
+        ["e2e", m, outs, ops] if *m == "L" || *m == "E" => run_e2e(*m == "L", outs, ops, true),
+        ["e2n", m, outs, ops] if *m == "L" || *m == "E" => run_e2e(*m == "L", outs, ops, false),
+        _ => "bad-case".into(),
+    }
 }
